@@ -25,7 +25,8 @@ MIN_COUNTERS = dict(quick={'symmetry_asserted': 1500, 'quadratic_entries_asserte
                            'complex_valued_cases': 100, 'scalar_x_cases': 50, 'integer_x_cases': 100,
                            'quadratic_raw_quotients_asserted': 20000},
                     thorough={'symmetry_asserted': 60000})
-RULE = ('n in 1..6; f = c + b.x + x\'Qx/2 (quadratic: every second-difference formula is exact on it) and f = exp(a.x) + sin(b.x) + '
+RULE = ('x also as Python ints with integer-coefficient polynomials; Hessdiag objects that reach their method through the setter after use; every raw difference quotient of a quadratic is asserted before extrapolation. ' 
+        'n in 1..6; f = c + b.x + x\'Qx/2 (quadratic: every second-difference formula is exact on it) and f = exp(a.x) + sin(b.x) + '
         'x\'Qx/2 (analytic Hessian), Q random symmetric with non-zero off-diagonal entries; methods central, central2, forward, '
         'backward, complex, multicomplex; Hessdiag orders 2, 4, 6; f returning a length-1 array; complex-valued f (i q(x), '
         'exp(i a.x)) for the real-step methods; scalar x; default steps, scalar steps and small user generators. distinct '
